@@ -385,20 +385,20 @@ static struct Register {
 		Cfg c; Cfg cq = c; cq.queue = true; Cfg c2 = c; c2.twoMixins = true; c2.maxFilters = 2;
 		(void)cq; (void)c2;
 #if SEL(0)
-		addBfsUnit<Harness<eventpp::EventDispatcher<int, Proto<0>::Sig, PolF<ST> >, 0> >("C12/EventDispatcher/by-value", 0, c, 5, 7);
-		addBfsUnit<Harness<eventpp::EventDispatcher<int, Proto<1>::Sig, PolF<MT> >, 1> >("C12/EventDispatcher/mutable-ref", 0, c, 5, 7);
+		addBfsUnit<Harness<eventpp::EventDispatcher<int, Proto<0>::Sig, PolF<ST> >, 0> >("C12/EventDispatcher/by-value", 0, c, 5, 9);
+		addBfsUnit<Harness<eventpp::EventDispatcher<int, Proto<1>::Sig, PolF<MT> >, 1> >("C12/EventDispatcher/mutable-ref", 0, c, 5, 9);
 #endif
 #if SEL(1)
-		addBfsUnit<Harness<eventpp::EventDispatcher<int, Proto<2>::Sig, PolF<ST> >, 2> >("C12/EventDispatcher/const-ref", 0, c, 5, 7);
-		addBfsUnit<Harness<eventpp::EventDispatcher<int, Proto<0>::Sig, PolF2<ST> >, 0> >("C12/EventDispatcher/two-mixins", 0, c2, 5, 7);
+		addBfsUnit<Harness<eventpp::EventDispatcher<int, Proto<2>::Sig, PolF<ST> >, 2> >("C12/EventDispatcher/const-ref", 0, c, 5, 9);
+		addBfsUnit<Harness<eventpp::EventDispatcher<int, Proto<0>::Sig, PolF2<ST> >, 0> >("C12/EventDispatcher/two-mixins", 0, c2, 5, 9);
 #endif
 #if SEL(2)
-		addBfsUnit<Harness<eventpp::EventQueue<int, Proto<0>::Sig, PolF<MT> >, 0> >("C12/EventQueue/by-value", 0, cq, 4, 6);
+		addBfsUnit<Harness<eventpp::EventQueue<int, Proto<0>::Sig, PolF<MT> >, 0> >("C12/EventQueue/by-value", 0, cq, 4, 7);
 		{ Cfg ch = c; ch.sigPrefix = "hookless-mixin-first/"; ch.maxFilters = 2;
 		  addBfsUnit<Harness<eventpp::EventDispatcher<int, Proto<0>::Sig, PolHooklessFirst<ST> >, 0> >("C12/EventDispatcher/hookless-mixin-before-filter", 0, ch, 3, 4); }
 #endif
 #if SEL(3)
-		addBfsUnit<Harness<eventpp::EventQueue<int, Proto<2>::Sig, PolF<ST> >, 2> >("C12/EventQueue/const-ref", 0, cq, 4, 5);
+		addBfsUnit<Harness<eventpp::EventQueue<int, Proto<2>::Sig, PolF<ST> >, 2> >("C12/EventQueue/const-ref", 0, cq, 4, 7);
 #endif
 #if SEL(4)
 		addEnumUnit<ContinueHarness>("C12/canContinueInvoking");
